@@ -37,7 +37,13 @@ type wResp struct {
 	ROk    bool        `json:"rok"`
 	RDec   interface{} `json:"rdec"`
 	RPanic string      `json:"rpanic"`
+	// Ms: wall time of the decoding inside the worker (the shorter of two runs when the first was slow)
+	Ms int64 `json:"ms"`
 }
+
+// slowMs: decoding an input of at most 64 KiB does a few thousand steps; two runs in a row that both take longer than this
+// are work that is not bounded by the input (a loop over an announced length, for instance), reported like a hang
+const slowMs = 2000
 
 // entries: extra decode entry points (name -> func(bytes) (ok bool, panic string)), filled by other files.
 var entries = map[string]func(b []byte) (bool, string){}
@@ -59,17 +65,35 @@ func workerMain(args []string) error {
 			b, _ := base64.StdEncoding.DecodeString(rq.B)
 			var rs wResp
 			rs.Dec, rs.RDec = []int{}, []int{}
-			if rq.Entry != "" {
-				f := entries[rq.Entry]
-				if f == nil {
-					return fmt.Errorf("unknown entry %q", rq.Entry)
+			once := func() error {
+				if rq.Entry != "" {
+					f := entries[rq.Entry]
+					if f == nil {
+						return fmt.Errorf("unknown entry %q", rq.Entry)
+					}
+					rs.Ok, rs.Panic = f(b)
+				} else {
+					rs.Ok, rs.Dec, rs.Panic, rs.Alloc = decodeFresh(rq.S, b, true)
 				}
-				rs.Ok, rs.Panic = f(b)
-			} else {
-				rs.Ok, rs.Dec, rs.Panic, rs.Alloc = decodeFresh(rq.S, b, true)
-				if rq.Reuse {
-					rs.ROk, rs.RDec, rs.RPanic = decodeReuse(rand.New(rand.NewSource(rq.Seed)), rq.S, b)
+				return nil
+			}
+			t0 := time.Now()
+			if e := once(); e != nil {
+				return e
+			}
+			rs.Ms = time.Since(t0).Milliseconds()
+			if rs.Ms > slowMs && len(b) <= 1<<16 && rs.Panic == "" {
+				t1 := time.Now()
+				_ = once()
+				if ms := time.Since(t1).Milliseconds(); ms < rs.Ms {
+					rs.Ms = ms
 				}
+				if rs.Ms > slowMs {
+					rs.Panic = fmt.Sprintf("hang: decoding %d bytes took %d ms twice in a row (work not bounded by the input)", len(b), rs.Ms)
+				}
+			}
+			if rq.Entry == "" && rq.Reuse {
+				rs.ROk, rs.RDec, rs.RPanic = decodeReuse(rand.New(rand.NewSource(rq.Seed)), rq.S, b)
 			}
 			js, _ := json.Marshal(rs)
 			out.Write(js)
